@@ -52,7 +52,7 @@ BOUNDS = {
               "shapes": "0-3 sections, 0-5 symbols (global/local, defined/undefined/absolute), 0-3 relocations, 0-2 images, "
                         "entry set/unset, debug info none/rich, archives of 0-3 objects, 5 architectures"},
     "thorough": {"numeric fields": "|v| < 16**32 (= 2**128), both signs",
-                 "field combinations": "per shape 2-4 diagonals (64 classes per field) + for four related field pairs (section address/alignment, "
+                 "field combinations": "per shape 1-3 diagonals (64 classes per field) + for four related field pairs (section address/alignment, "
                                        "symbol value/relocation offset, relocation offset/addend, relocation offset/image address) both "
                                        "fields free (full 16x16 class product of the pair, |v| < 2**32)",
                  "data bytes": "all byte values; every section length 0..130",
@@ -843,7 +843,7 @@ def jobs(tier, seed):
         D, ndiag, lens = 16, 2, QUICK_LENS
         shapes = dict(SHAPES)
     else:
-        D, ndiag, lens = 32, 4, THOROUGH_LENS
+        D, ndiag, lens = 32, 3, THOROUGH_LENS
         shapes = dict(SHAPES)
         shapes.update(gen_shapes(seed, 16))
     js.append(("mk_num", dict(D=D)))
@@ -854,8 +854,8 @@ def jobs(tier, seed):
         nd = ndiag if nf > 1 else 1
         if tier == "quick" and sid not in ("typical", "images"):
             nd = 1
-        if tier == "thorough" and sid.startswith("gen"):
-            nd = min(nd, 2)
+        if tier == "thorough" and (sid.startswith("gen") or sid in ("big", "symid")):
+            nd = 1
         diags = _diagonals(rnd, nf, D, max(nd, 2))
         for ks in (diags if nd > 1 else diags[1:] if nf > 1 else diags[:1]):
             kw = dict(shape=sid, D=D, ks=ks, free=[], seed=seed)
